@@ -28,6 +28,8 @@ import CookModel.Lemmas.DiagNoticeSpans
 import CookModel.Lemmas.DiagEventExact2
 import CookModel.Lemmas.DiagPlaceFam
 import CookModel.Lemmas.MetaValidator
+import CookModel.Lemmas.DiagPlaceDocInst
+import CookModel.Lemmas.DiagEventKinds
 /-
   C07  Diagnostics are sound, complete and placed on the offending construct.
 
@@ -3310,5 +3312,244 @@ example : ((MV.metadataV (α := Rat) C07_exEnvV ⟨.ok, true, false⟩ C07_exKey
 example : ((MV.metadataV (α := Rat) C07_exEnvV ⟨.warning, true, true⟩ C07_exKeyV C07_exValueV {}).2.metaMap,
       (MV.metadataV (α := Rat) C07_exEnvV ⟨.warning, true, true⟩ C07_exKeyV C07_exValueV {}).2.diags.toList.map (·.kind)) =
     ([("servings".toList, "muchas".toList)], ["metadata-validator", "std-unsupported-value"]) := by decide +kernel
+
+-- ===== w7c07doc =====
+/-! ## A planted construct in a whole DOCUMENT (wave 7)
+
+  `C07_planted_step` works on a step block; here the composition with the lexer and the block splitter, and from
+  the events to the report of `CooklangParser::parse`.  A block of a document is abstract (`PlBlock`: specification
+  tokens + description of its events on the actual tokens, `PlBlock.Runs`: `parse_block` delivers them on every
+  lexer run spelling the block); the items of C01's grammar (`PlBlock.ofItem`) and a step with a planted
+  construct (`PlBlock.planted`) are such blocks.  `Lemmas/DiagPlaceDoc.lean`, `DiagPlaceDocReport.lean`,
+  `DiagPlaceDocInst.lean`.
+
+  What `event_consumer.rs` does with an `Error` event: `parse_events` STOPS, keeps the parse-stage diagnostics
+  (those collected so far, the error, the error / warning events still in the stream) and returns no output — the
+  analysis-stage diagnostics, the `>>` deprecation notice included, are dropped.  So with an error in the
+  construct the report is exactly the construct's diagnostics WITHOUT the notice; the notice (and the analysis of
+  the construct's component) appears only when the construct raises warnings only. -/
+
+/-- **Documents of abstract blocks.**  The characters of `lead ++ plDocSpec doc` (leading blank lines, then blocks
+    each followed by its separator; well spelled; no front matter fence), every block running as it describes: the
+    splitter cuts the lexer's tokens into exactly one block per item, each a contiguous part of the lexer's token
+    list (so its token offsets are byte offsets of the document) spelling its item; `pullEvents` returns the
+    concatenation of the blocks' events, each as its block describes; the parser reaches no panic site.  The two
+    further clauses: a well-formed item of C01's grammar is such a block, and so is a step with a planted construct
+    (side conditions `plantedOK` on the specification tokens; the construct a piece at its position on every actual
+    block — the `C07_planted_*` instances). -/
+theorem C07_planted_blocks_document (cs : CharSpec) (ext : Ext) :
+    (∀ (lead : List Tok) (doc : List (PlBlock α × List Tok)),
+      blankLinesOK lead = true → (∀ d ∈ doc, d.1.Runs cs ext) → sepsOK (doc.map (·.2)) = true →
+      WellSpelled cs (lead ++ plDocSpec doc) → parseFrontmatter cs (render (lead ++ plDocSpec doc)) = none →
+      ∃ (res : List (List Tok × List (Ev α))) (arr : Array (Ev α)),
+        allBlocks ((lex cs (render (lead ++ plDocSpec doc))).length + 1) (lex cs (render (lead ++ plDocSpec doc))) =
+          res.map (·.1) ∧
+        (∀ r ∈ res, r.1 <:+: lex cs (render (lead ++ plDocSpec doc))) ∧
+        pullEvents (α := α) cs ext (render (lead ++ plDocSpec doc)) = (arr, none) ∧
+        arr.toList = (res.map (·.2)).flatten ∧ All2 PlBlock.Res doc res) ∧
+    (∀ d : DocItem, d.ok cs ext = true → (PlBlock.ofItem (α := α) cs d).Runs cs ext) ∧
+    (∀ (pre post : List SegX) (B : List Tok) (specB : List Tok → List Tok → List Tok → List (Ev α) → Prop),
+      plantedOK cs ext pre post B = true →
+      (∀ (T tpre tB tpost : List Tok), T = tpre ++ (tB ++ tpost) → Spells tpre (pre.flatMap SegX.spell) →
+        Spells tB B → Spells tpost (post.flatMap SegX.spell) → RunAt (baseOff T) T →
+        PlPieceAt T cs ext tpre ⟨tB, specB T tpre tB⟩) →
+      (PlBlock.planted cs pre post B specB).Runs cs ext) :=
+  ⟨fun lead doc h1 h2 h3 h4 h5 => c07d_pullEvents_blocks cs ext lead doc h1 h2 h3 h4 h5,
+   fun d h => c07d_item_runs cs ext d h,
+   fun pre post B specB h1 h2 => c07d_planted_runs cs ext pre post B specB h1 h2⟩
+
+/-- **A catalogued construct planted in a whole document: from the printed characters to the report.**  The
+    document is `docA` (well-formed items of C01's grammar: steps, section lines, `>>` lines, text paragraphs), then
+    ONE step `pre ++ B ++ post` with the construct `B` (specification tokens) planted between well-spelled segments,
+    then `docB`; each block followed by its separator; well spelled, no front matter fence.  The construct is a piece
+    at its position on every actual block (`hB`).  Then on the printed characters:
+    * the lexer and the splitter produce a block `T = tpre ++ tB ++ tpost`, a contiguous part of the lexer's token
+      list (token offsets = byte offsets of the document), `tB` spelling `B`, and the construct's events `evsB` are
+      as `specB T tpre tB` says — in the instances: the documented diagnostics with labels inside the byte range
+      of `tB`, then the component whose span is that range;
+    * the PARSE-STAGE part of the report of `parse` is EXACTLY the parse-stage diagnostics carried by `evsB`, in
+      order: no other block and no other segment contributes one;
+    * if `evsB` has an `Error` event: the report is exactly that list (no analysis-stage diagnostic, no `>>` notice:
+      `parse_events` stops at the error), there is no output and the result is invalid;
+    * if it has none: there is output (whether the result is valid then depends on what the analysis says about
+      the construct's component: `C07_ingredient_event_exact` …);
+    * so: no output ⇔ the construct raises an error; the parser reaches no panic site (the collector: `C03_holds`). -/
+theorem C07_planted_document (env : Env) (lead : List Tok) (docA docB : List (DocItem × List Tok))
+    (pre post : List SegX) (B sep : List Tok) (specB : List Tok → List Tok → List Tok → List (Ev α) → Prop)
+    (hlead : blankLinesOK lead = true) (hokA : ∀ d ∈ docA, d.1.ok env.cs env.ext = true)
+    (hokB : ∀ d ∈ docB, d.1.ok env.cs env.ext = true) (hpl : plantedOK env.cs env.ext pre post B = true)
+    (hB : ∀ (T tpre tB tpost : List Tok), T = tpre ++ (tB ++ tpost) → Spells tpre (pre.flatMap SegX.spell) →
+      Spells tB B → Spells tpost (post.flatMap SegX.spell) → RunAt (baseOff T) T →
+      PlPieceAt T env.cs env.ext tpre ⟨tB, specB T tpre tB⟩)
+    (hseps : sepsOK (docA.map (·.2) ++ sep :: docB.map (·.2)) = true)
+    (hw : WellSpelled env.cs (lead ++ plDocSpec (plantedDoc env.cs docA docB pre post B sep specB)))
+    (hfm : parseFrontmatter env.cs
+      (render (lead ++ plDocSpec (plantedDoc env.cs docA docB pre post B sep specB))) = none) :
+    ∃ (T tpre tB tpost : List Tok) (evsB : List (Ev α)),
+      T <:+: lex env.cs (render (lead ++ plDocSpec (plantedDoc env.cs docA docB pre post B sep specB))) ∧
+      T = tpre ++ (tB ++ tpost) ∧ Spells tpre (pre.flatMap SegX.spell) ∧ Spells tB B ∧
+      Spells tpost (post.flatMap SegX.spell) ∧ specB T tpre tB evsB ∧
+      (parseRecipe (α := α) env (render (lead ++ plDocSpec (plantedDoc env.cs docA docB pre post B sep specB)))).diags.toList.filter
+        (fun d => d.stage == .parse) = evDiags evsB ∧
+      ((∃ d, Ev.error d ∈ evsB) →
+        (parseRecipe (α := α) env
+          (render (lead ++ plDocSpec (plantedDoc env.cs docA docB pre post B sep specB)))).diags.toList = evDiags evsB ∧
+        (parseRecipe (α := α) env
+          (render (lead ++ plDocSpec (plantedDoc env.cs docA docB pre post B sep specB)))).output = none ∧
+        (parseRecipe (α := α) env
+          (render (lead ++ plDocSpec (plantedDoc env.cs docA docB pre post B sep specB)))).isValid = false) ∧
+      ((∀ d, Ev.error d ∉ evsB) →
+        (parseRecipe (α := α) env
+          (render (lead ++ plDocSpec (plantedDoc env.cs docA docB pre post B sep specB)))).output.isSome = true) ∧
+      ((parseRecipe (α := α) env
+          (render (lead ++ plDocSpec (plantedDoc env.cs docA docB pre post B sep specB)))).output = none ↔
+        ∃ d, Ev.error d ∈ evsB) ∧
+      (pullEvents (α := α) env.cs env.ext
+        (render (lead ++ plDocSpec (plantedDoc env.cs docA docB pre post B sep specB)))).2 = none := by
+  obtain ⟨T, tpre, tB, tpost, evsB, arr, h1, h2, h3, h4, h5, h6, hpe, hd, he⟩ :=
+    c07d_planted_doc_events (α := α) env.cs env.ext lead docA docB pre post B sep specB hlead hokA hokB hpl hB hseps hw hfm
+  obtain ⟨r1, r2, r3, r4⟩ := c07d_report_of_events env _ arr evsB hpe hd he
+  refine ⟨T, tpre, tB, tpost, evsB, h1, h2, h3, h4, h5, h6, r1, fun hex => ⟨(r2 hex).1, (r2 hex).2, ?_⟩, r3, r4,
+    by rw [hpe]⟩
+  unfold AnalysisResult.isValid
+  rw [(r2 hex).2]; rfl
+
+/-- **Instance: a timer without quantity `~ mods name { }` planted in a document** (catalogue entries: timer without
+    duration, timer with neither name nor quantity, modifier on a timer, alias on a timer, note on a timer).  The
+    construct is given by its specification tokens (`PlShapeN`: the kinds make it a braces timer; the braces hold
+    blanks / comments only); it may be followed by anything, a `(note)` included.  Then `C07_planted_document`
+    applies with `specB := c07d_timerNoQtySpec`: the construct's events are EXACTLY
+    `modifiers-not-allowed:timer`? ++ `alias-not-allowed:timer`? ++ `note-not-allowed:timer`? ++
+    (`timer-missing-quantity` under TIMER_REQUIRES_TIME, else `timer-neither-name-nor-quantity` iff the name is
+    blank) ++ the timer on the byte range `offAt T |tpre|` … `offAt T (|tpre| + |tB|)` of the construct. -/
+theorem C07_planted_document_timer_no_quantity (env : Env) (pre post : List SegX) (tmS : Tok) (msS nameS : List Tok)
+    (tobS : Tok) (QS : List Tok) (tcbS : Tok) (sh : PlShapeN env.ext .tilde tmS msS nameS tobS QS tcbS)
+    (hQ : ∀ t ∈ QS, isPadK t = true) :
+    ∀ (T tpre tB tpost : List Tok), T = tpre ++ (tB ++ tpost) → Spells tpre (pre.flatMap SegX.spell) →
+      Spells tB (c07p_comp tmS msS nameS tobS QS tcbS) → Spells tpost (post.flatMap SegX.spell) →
+      RunAt (baseOff T) T →
+      PlPieceAt (α := α) T env.cs env.ext tpre ⟨tB, c07d_timerNoQtySpec env.cs env.ext msS nameS QS T tpre tB⟩ :=
+  fun T tpre tB tpost hT _ hsB _ hrun =>
+    c07d_timer_noqty_pieceAt env.cs env.ext tmS msS nameS tobS QS tcbS sh hQ T tpre tB tpost hT hsB hrun
+
+/-! non-vacuity: the document `>> source: grandma` / blank line / `Use ~{} now` (every extension off).  The
+    hypotheses of `C07_planted_document` with the instance above are decided; the conclusion, evaluated: the
+    report is exactly `timer-neither-name-nor-quantity` labelled 25..27 inside the construct 24..27 — and NOT the
+    deprecation notice of the `>>` line —, no output. -/
+def C07_dDocA : List (DocItem × List Tok) :=
+  [(.metaLine [tk .word "source".toList] [tk .word "grandma".toList] { a := [tk .ws [' ']], c := [tk .ws [' ']] },
+    [C01_nl, C01_nl])]
+def C07_dB : List Tok := c07p_comp (tk .tilde ['~']) [] [] (tk .openBrace ['{']) [] (tk .closeBrace ['}'])
+def C07_dSpec : List Tok → List Tok → List Tok → List (Ev Rat) → Prop :=
+  c07d_timerNoQtySpec toyCharSpec ⟨0⟩ [] [] []
+def C07_dDoc : List (PlBlock Rat × List Tok) :=
+  plantedDoc toyCharSpec C07_dDocA [] C07_plPre' C07_plPost C07_dB [C01_nl] C07_dSpec
+example : render ([] ++ plDocSpec C07_dDoc) = ">> source: grandma\n\nUse ~{} now\n".toList := by decide
+example : (∀ d ∈ C07_dDocA, d.1.ok C07_coreEnv.cs C07_coreEnv.ext = true) ∧
+    plantedOK C07_coreEnv.cs C07_coreEnv.ext C07_plPre' C07_plPost C07_dB = true ∧
+    sepsOK (C07_dDocA.map (·.2) ++ [C01_nl] :: ([] : List (DocItem × List Tok)).map (·.2)) = true := by decide
+example : WellSpelled toyCharSpec ([] ++ plDocSpec C07_dDoc) := by decide
+example : parseFrontmatter toyCharSpec (render ([] ++ plDocSpec C07_dDoc)) = none := by decide
+theorem C07_dShape : PlShapeN C07_coreEnv.ext .tilde (tk .tilde ['~']) [] [] (tk .openBrace ['{']) []
+    (tk .closeBrace ['}']) :=
+  ⟨rfl, Or.inl ⟨rfl, rfl⟩, (by intro t h; cases h), rfl, (by intro t h; cases h), rfl⟩
+example : ((parseRecipe (α := Rat) C07_coreEnv (render ([] ++ plDocSpec C07_dDoc))).diags.toList,
+      (parseRecipe (α := Rat) C07_coreEnv (render ([] ++ plDocSpec C07_dDoc))).output.isSome) =
+    ([⟨.error, .parse, "timer-neither-name-nor-quantity", [⟨25, 27⟩]⟩], false) := by decide +kernel
+example : ∃ (T tpre tB tpost : List Tok) (evsB : List (Ev Rat)),
+    T <:+: lex toyCharSpec (render ([] ++ plDocSpec C07_dDoc)) ∧ T = tpre ++ (tB ++ tpost) ∧
+    Spells tB C07_dB ∧ C07_dSpec T tpre tB evsB ∧
+    (parseRecipe (α := Rat) C07_coreEnv (render ([] ++ plDocSpec C07_dDoc))).diags.toList.filter
+      (fun d => d.stage == .parse) = evDiags evsB := by
+  obtain ⟨T, tpre, tB, tpost, evsB, h1, h2, -, h4, -, h6, h7, -⟩ :=
+    C07_planted_document (α := Rat) C07_coreEnv [] C07_dDocA [] C07_plPre' C07_plPost C07_dB [C01_nl] C07_dSpec
+      (by decide) (by decide) (by intro d h; cases h) (by decide)
+      (C07_planted_document_timer_no_quantity C07_coreEnv C07_plPre' C07_plPost _ [] [] _ [] _ C07_dShape
+        (by intro t h; cases h))
+      (by decide) (by decide) (by decide)
+  exact ⟨T, tpre, tB, tpost, evsB, h1, h2, h4, h6, h7⟩
+
+/-! ### Event level, every catalogued kind (wave 7, item 3)
+
+  `C07_ingredient_event_exact` / `C07_cookware_event_exact` restate the iff for `reference-not-found` and
+  `unnecessary-scaling-lock` only.  The kind lists of the parts of an event are pairwise disjoint
+  (`c07v_*_kinds`), so EVERY catalogued kind is raised by the event iff the one part that owns it runs and raises it;
+  the parts have their own exact iffs (`C07_resolve_reference_exact`: `ref-conflicting-modifiers`,
+  `reference-not-found`; `C07_reference_checks_exact(_cookware)`: `incompatible-units`, `note-in-reference`,
+  `conflicting-ref-quantity`, `text-value-in-ref`; below: the intermediate-reference kinds). -/
+
+/-- **An ingredient event, kind by kind.**  With the event's exact list `c07v_ingredientEventDiags` (what
+    `ingredient` of the analysis pass appends, `C07_ingredient_event_exact`): a diagnostic of kind `k` is in it
+    * `unnecessary-scaling-lock`: iff the lock part raises it;
+    * `inter-ref-conflicting-modifiers`: iff there is intermediate data `&(…)` and one of `@`, `-`, `+` is set;
+    * `inter-ref-self` / `-zero` / `-bounds`: iff there is intermediate data and the target computation
+      (`interRefTarget` on the content of the current section and the number of sections) fails with `k`;
+    * `ref-conflicting-modifiers`, `redundant-new`, `redundant-ref`, `reference-not-found`: iff there is NO
+      intermediate data and `resolve_reference` (`refDiags`) raises it;
+    * `incompatible-units`, `note-in-reference`, `conflicting-ref-quantity`, `text-value-in-ref`: iff there is no
+      intermediate data and the reference checks against the resolved entry (`c07v_ingrRefCheckDiags`: empty unless
+      `resolve_reference` resolved to a table entry) raise it. -/
+theorem C07_ingredient_event_kinds (env : Env) (input : Str) (li : Loc (PIngredient α))
+    (ings : Array (Ingredient (ScalableValue α))) (locs : Array (Loc (PIngredient α)))
+    (dm : DefineMode) (dup : DuplicateMode) (content : List Content) (n : Nat) (k : String) :
+    (k = "unnecessary-scaling-lock" →
+      ((∃ d ∈ c07v_ingredientEventDiags env input li ings locs dm dup content n, d.kind = k) ↔
+        ∃ d ∈ c07v_ingrLockDiags li.val.quantity, d.kind = k)) ∧
+    (k = "inter-ref-conflicting-modifiers" →
+      ((∃ d ∈ c07v_ingredientEventDiags env input li ings locs dm dup content n, d.kind = k) ↔
+        ∃ dd, li.val.inter = some dd ∧
+          (li.val.modifiers.val.bits &&& (Modifiers.RECIPE ||| Modifiers.HIDDEN ||| Modifiers.NEW)) ≠ 0)) ∧
+    (k ∈ c07k_interKinds →
+      ((∃ d ∈ c07v_ingredientEventDiags env input li ings locs dm dup content n, d.kind = k) ↔
+        ∃ dd, li.val.inter = some dd ∧ interRefTarget content n dd.val = .error k)) ∧
+    (k ∈ c07k_refKinds →
+      ((∃ d ∈ c07v_ingredientEventDiags env input li ings locs dm dup content n, d.kind = k) ↔
+        (li.val.inter = none ∧
+          ∃ d ∈ refDiags env c07v_ingrInherit (ings.toList.map (fun x => (x.name, x.modifiers)))
+            (c07v_igr0 env li dm).name li.val.modifiers.val li.span li.val.modifiers.span dm dup, d.kind = k))) ∧
+    (k ∈ c07k_checkKinds →
+      ((∃ d ∈ c07v_ingredientEventDiags env input li ings locs dm dup content n, d.kind = k) ↔
+        (li.val.inter = none ∧
+          ∃ d ∈ c07v_ingrRefCheckDiags env input li (c07v_igr0 env li dm) ings locs
+            (c07v_refResult env c07v_ingrInherit (ings.toList.map (fun x => (x.name, x.modifiers)))
+              (c07v_igr0 env li dm).name li.val.modifiers.val dm dup), d.kind = k))) := by
+  obtain ⟨h1, h2, h3, h4, h5⟩ := c07k_ingredientEvent_kind env input li ings locs dm dup content n k
+  refine ⟨h1, fun hk => ?_, fun hk => ?_, h4, h5⟩
+  · rw [h2 hk]; subst hk
+    simp only [c07k_interCheck_iff]
+  · rw [h3 hk]
+    simp only [c07k_interRef_iff]
+
+/-- **A cookware event, kind by kind**: `unnecessary-scaling-lock` iff the lock part raises it (iff the amount
+    carries `=`); the four kinds of `resolve_reference` iff `refDiags` (container "cookware item") raises them; the
+    check kinds iff the checks against the resolved entry raise them. -/
+theorem C07_cookware_event_kinds (env : Env) (input : Str) (lc : Loc (PCookware α))
+    (cws : Array (Cookware (ScalableValue α))) (locs : Array (Loc (PCookware α)))
+    (dm : DefineMode) (dup : DuplicateMode) (k : String) :
+    (k = "unnecessary-scaling-lock" →
+      ((∃ d ∈ c07v_cookwareEventDiags env input lc cws locs dm dup, d.kind = k) ↔
+        ∃ d ∈ c07v_cwLockDiags lc.val.quantity, d.kind = k)) ∧
+    (k ∈ c07k_refKinds →
+      ((∃ d ∈ c07v_cookwareEventDiags env input lc cws locs dm dup, d.kind = k) ↔
+        ∃ d ∈ refDiags env c07v_cwInherit (cws.toList.map (fun x => (x.name, x.modifiers)))
+          (lc.val.name.trimmed env.cs) lc.val.modifiers.val lc.span lc.val.modifiers.span dm dup, d.kind = k)) ∧
+    (k ∈ c07k_checkKinds →
+      ((∃ d ∈ c07v_cookwareEventDiags env input lc cws locs dm dup, d.kind = k) ↔
+        ∃ d ∈ c07v_cwRefCheckDiags input lc (c07v_cw0 env lc dm) cws locs
+          (c07v_refResult env c07v_cwInherit (cws.toList.map (fun x => (x.name, x.modifiers)))
+            (lc.val.name.trimmed env.cs) lc.val.modifiers.val dm dup), d.kind = k)) :=
+  c07k_cookwareEvent_kind env input lc cws locs dm dup k
+
+/-! non-vacuity: the kind lists; on `C07_evRefSalt` (`@&salt{=x}(n)` against the definition `@salt{1}`) the check
+    kinds `note-in-reference` and `text-value-in-ref` are raised, `reference-not-found` is not; an ingredient with
+    intermediate data and `+` raises `inter-ref-conflicting-modifiers` -/
+example : "note-in-reference" ∈ c07k_checkKinds ∧ "reference-not-found" ∈ c07k_refKinds ∧
+    "inter-ref-zero" ∈ c07k_interKinds := by decide
+example : (∃ d ∈ c07v_ingredientEventDiags C01_toyEnv [] C07_evRefSalt C07_evState.ingredients C07_evState.locIngr
+      C07_evState.defineMode C07_evState.duplicateMode C07_evState.cur.content C07_evState.sections.length,
+      d.kind = "note-in-reference") ∧ C07_evRefSalt.val.inter = none :=
+  ⟨⟨⟨.error, .analysis, "note-in-reference", [⟨21, 22⟩, ⟨8, 8⟩]⟩, by decide, rfl⟩, rfl⟩
+example : ((⟨Modifiers.REF ||| Modifiers.NEW⟩ : Modifiers).bits &&&
+    (Modifiers.RECIPE ||| Modifiers.HIDDEN ||| Modifiers.NEW)) ≠ 0 := by decide
 
 end Cook
